@@ -660,4 +660,221 @@ theorem ident_nulFree {n : Str} (h : isIdentStr n = true) : n.all (· ≠ '\x00'
     simp only [List.all_cons, Bool.and_eq_true, decide_eq_true_eq]
     exact ⟨hc0, hr⟩
 
+/-! ### Blocks around single blank lines
+
+A program with "tall" steps is a sequence of BLOCKS — tidy, NUL-free piece lists — separated by one
+blank line each (`nl 0, nl 0`). Its lines are the lines of the blocks with one empty line in between,
+so the line passes still leave it alone. -/
+
+/-- the blocks with a blank line between each two -/
+def joinBlocks : List (List Piece) → List Piece
+  | [] => []
+  | [b] => b
+  | b :: bs => b ++ .nl 0 :: .nl 0 :: joinBlocks bs
+
+/-- the lines of the blocks with an empty line between each two -/
+def blockLines : List (List Piece) → List (List Char)
+  | [] => []
+  | [b] => linesFwd [] b
+  | b :: bs => linesFwd [] b ++ [] :: blockLines bs
+
+theorem linesFwd_append_nl (A R : List Piece) (k : Nat) : ∀ (p : List Char),
+    linesFwd p (A ++ .nl k :: R) = linesFwd p (A ++ [.nl 0]) ++ linesFwd (List.replicate k ' ') R := by
+  induction A with
+  | nil => intro p; simp [linesFwd]
+  | cons x A ih =>
+    intro p
+    cases x with
+    | atom s => simpa [linesFwd] using ih (p ++ s)
+    | sp => simpa [linesFwd] using ih (p ++ [' '])
+    | nl j => simpa [linesFwd] using ih (List.replicate j ' ')
+
+theorem linesFwd_joinBlocks : ∀ (bs : List (List Piece)), bs ≠ [] → (∀ b ∈ bs, tidyPs false b = true) →
+    linesFwd [] (joinBlocks bs) = blockLines bs ∧ linesFwd [] (joinBlocks bs ++ [.nl 0]) = blockLines bs
+  | [], hne, _ => absurd rfl hne
+  | [b], _, h => by
+    have hb := h b (by simp)
+    exact ⟨rfl, by simpa [joinBlocks, blockLines] using
+      linesFwd_snoc_nl b false [] hb (by intro e; exact Bool.noConfusion e)⟩
+  | b :: b' :: bs, _, h => by
+    have hb := h b (by simp)
+    have ih := linesFwd_joinBlocks (b' :: bs) (by simp) (fun x hx => h x (by simp [hx]))
+    have hsn := linesFwd_snoc_nl b false [] hb (by intro e; exact Bool.noConfusion e)
+    constructor
+    · show linesFwd [] (b ++ .nl 0 :: (.nl 0 :: joinBlocks (b' :: bs))) = _
+      rw [linesFwd_append_nl, hsn]
+      simp [linesFwd, blockLines, ih.1]
+    · show linesFwd [] ((b ++ .nl 0 :: (.nl 0 :: joinBlocks (b' :: bs))) ++ [.nl 0]) = _
+      rw [List.append_assoc, List.cons_append, List.cons_append, linesFwd_append_nl, hsn]
+      simp [linesFwd, blockLines, ih.2]
+
+theorem joinNl_append {A B : List (List Char)} (ha : A ≠ []) (hb : B ≠ []) :
+    joinNl (A ++ B) = joinNl A ++ '\n' :: joinNl B := by
+  induction A with
+  | nil => exact absurd rfl ha
+  | cons a A ih =>
+    cases A with
+    | nil =>
+      cases B with
+      | nil => exact absurd rfl hb
+      | cons b B => rfl
+    | cons a' A =>
+      have := ih (by simp)
+      simp only [List.cons_append] at this ⊢
+      simp only [joinNl, this, List.append_assoc, List.cons_append]
+
+theorem collapseLoop_cons_nonblank (a : List Char) (h : isBlankLine a = false) (b : Bool)
+    (r : List (List Char)) : collapseLoop b (a :: r) = a :: collapseLoop false r := by
+  simp [collapseLoop, h]
+
+theorem collapseLoop_append_nonblank (A X : List (List Char)) (ha : A ≠ [])
+    (h : ∀ l ∈ A, isBlankLine l = false) : ∀ b, collapseLoop b (A ++ X) = A ++ collapseLoop false X := by
+  induction A with
+  | nil => exact absurd rfl ha
+  | cons a A ih =>
+    intro b
+    have hl := h a (by simp)
+    cases A with
+    | nil => simp [collapseLoop_cons_nonblank a hl]
+    | cons a' A =>
+      have := ih (by simp) (fun x hx => h x (by simp [hx])) false
+      rw [List.cons_append, collapseLoop_cons_nonblank a hl, this]
+      rfl
+
+theorem dropTrailingEmpty_last (L : List (List Char)) (l : List Char) (h : l ≠ []) :
+    dropTrailingEmpty (L ++ [l]) = L ++ [l] := by
+  have hne : l.isEmpty = false := by cases l with | nil => exact absurd rfl h | cons c r => rfl
+  simp [dropTrailingEmpty, hne]
+
+/-- what the line passes need to know about the lines of a tidy, NUL-free block -/
+theorem block_lines {b : List Piece} (h1 : tidyPs false b = true) (h2 : nulFree b = true) :
+    linesFwd [] b ≠ [] ∧ (∀ l ∈ linesFwd [] b, GoodLine l) ∧ joinNl (linesFwd [] b) = renderPieces b := by
+  have hgood : ∀ l ∈ linesFwd [] b, GoodLine l :=
+    linesFwd_good b false [] h1 h2 (by intro h; exact Bool.noConfusion h) (by simp [headNS])
+  have hL : rustLinesAux [] (renderPieces b) = linesFwd [] b := by
+    simpa using rustLinesAux_linesFwd b [] (atomsOk_of_tidy b false h1) (by simp)
+  have hjoin : joinNl (linesFwd [] b) = renderPieces b := by
+    have := strip_aux b false [] h1 (by intro h; exact Bool.noConfusion h)
+    rw [hL, map_trimEnd_id _ (fun l hl => (hgood l hl).1)] at this
+    simpa using this
+  refine ⟨?_, hgood, hjoin⟩
+  intro e
+  rw [e] at hjoin
+  exact renderPieces_ne_nil_of_tidy h1 hjoin.symm
+
+/-- a line of the blocks: a good line, or the empty line between two blocks -/
+theorem blockLines_facts : ∀ (bs : List (List Piece)), bs ≠ [] →
+    (∀ b ∈ bs, tidyPs false b = true ∧ nulFree b = true) →
+    (∀ l ∈ blockLines bs, GoodLine l ∨ l = []) ∧ joinNl (blockLines bs) = renderPieces (joinBlocks bs) ∧
+    (∀ pb, collapseLoop pb (blockLines bs) = blockLines bs) ∧
+    (∃ L l, blockLines bs = L ++ [l] ∧ l ≠ [])
+  | [], hne, _ => absurd rfl hne
+  | [b], _, h => by
+    obtain ⟨h1, h2⟩ := h b (by simp)
+    obtain ⟨hne, hgood, hjoin⟩ := block_lines h1 h2
+    refine ⟨fun l hl => .inl (hgood l hl), hjoin, fun pb => ?_, ?_⟩
+    · refine collapseLoop_id _ (fun l hl => ?_) pb
+      obtain ⟨init, c, rfl, hc⟩ := (hgood l hl).1
+      simp [isBlankLine, hc]
+    · have hlast := List.dropLast_concat_getLast hne
+      refine ⟨_, _, hlast.symm, ?_⟩
+      obtain ⟨init, c, he, _⟩ := (hgood _ (List.getLast_mem hne)).1
+      rw [he]; simp
+  | b :: b' :: bs, _, h => by
+    obtain ⟨h1, h2⟩ := h b (by simp)
+    obtain ⟨hne, hgood, hjoin⟩ := block_lines h1 h2
+    obtain ⟨ihg, ihj, ihc, L, l, ihl, hl⟩ := blockLines_facts (b' :: bs) (by simp) (fun x hx => h x (by simp [hx]))
+    have hnb : ∀ l ∈ linesFwd [] b, isBlankLine l = false := by
+      intro l hl
+      obtain ⟨init, c, rfl, hc⟩ := (hgood l hl).1
+      simp [isBlankLine, hc]
+    have hrest_ne : blockLines (b' :: bs) ≠ [] := by rw [ihl]; simp
+    refine ⟨?_, ?_, ?_, ?_⟩
+    · intro l hl
+      simp only [blockLines, List.mem_append, List.mem_cons] at hl
+      rcases hl with hl | rfl | hl
+      · exact .inl (hgood l hl)
+      · exact .inr rfl
+      · exact ihg l hl
+    · show joinNl (linesFwd [] b ++ [] :: blockLines (b' :: bs)) = renderPieces (b ++ .nl 0 :: .nl 0 :: joinBlocks (b' :: bs))
+      rw [joinNl_append hne (by simp), hjoin, joinNl_cons_ne [] hrest_ne, ihj]
+      simp [renderPieces_append, renderPieces, Piece.render]
+    · intro pb
+      show collapseLoop pb (linesFwd [] b ++ [] :: blockLines (b' :: bs)) = _
+      rw [collapseLoop_append_nonblank _ _ hne hnb]
+      simp [collapseLoop, isBlankLine, ihc true, blockLines]
+    · exact ⟨linesFwd [] b ++ [] :: L, l, by simp [blockLines, ihl], hl⟩
+
+/-- the three line passes on blocks around single blank lines -/
+theorem post_passes_blocks {bs : List (List Piece)} (hne : bs ≠ [])
+    (h : ∀ b ∈ bs, tidyPs false b = true ∧ nulFree b = true) :
+    stripTrailingWhitespace (renderPieces (joinBlocks bs)) = renderPieces (joinBlocks bs) ∧
+    collapseBlanks (renderPieces (joinBlocks bs)) = renderPieces (joinBlocks bs) ++ ['\n'] ∧
+    expandLiterals (renderPieces (joinBlocks bs) ++ ['\n']) [] = some (renderPieces (joinBlocks bs) ++ ['\n']) := by
+  obtain ⟨hlines, hjoin, hcol, L, l, hlast, hl⟩ := blockLines_facts bs hne h
+  have hok : atomsOk (joinBlocks bs) = true := by
+    have : ∀ (bs : List (List Piece)), (∀ b ∈ bs, atomsOk b = true) → atomsOk (joinBlocks bs) = true := by
+      intro bs
+      induction bs with
+      | nil => intro _; rfl
+      | cons b bs ih =>
+        intro hb
+        cases bs with
+        | nil => exact hb b (by simp)
+        | cons b' bs =>
+          have h1 := hb b (by simp)
+          have h2 := ih (fun x hx => hb x (by simp [hx]))
+          have happ : ∀ (a c : List Piece), atomsOk a = true → atomsOk c = true → atomsOk (a ++ c) = true := by
+            intro a c ha hc
+            induction a with
+            | nil => exact hc
+            | cons x a iha =>
+              cases x <;> simp_all [atomsOk]
+          exact happ b _ h1 (by simpa [atomsOk] using h2)
+    exact this bs (fun b hb => atomsOk_of_tidy b false (h b hb).1)
+  have htidy : ∀ b ∈ bs, tidyPs false b = true := fun b hb => (h b hb).1
+  have hL : rustLines (renderPieces (joinBlocks bs)) = blockLines bs := by
+    have := rustLinesAux_linesFwd (joinBlocks bs) [] hok (by simp)
+    rw [(linesFwd_joinBlocks bs hne htidy).1] at this
+    simpa [rustLines] using this
+  have hL' : rustLines (renderPieces (joinBlocks bs) ++ ['\n']) = blockLines bs := by
+    have hr : renderPieces (joinBlocks bs) ++ ['\n'] = renderPieces (joinBlocks bs ++ [.nl 0]) := by
+      simp [renderPieces_append, renderPieces, Piece.render]
+    rw [hr]
+    have := rustLinesAux_linesFwd (joinBlocks bs ++ [.nl 0]) [] (by rw [atomsOk_snoc_nl]; exact hok) (by simp)
+    rw [(linesFwd_joinBlocks bs hne htidy).2] at this
+    simpa [rustLines] using this
+  have htrim : (blockLines bs).map trimEnd = blockLines bs := by
+    have : ∀ (Ls : List (List Char)), (∀ l ∈ Ls, GoodLine l ∨ l = []) → Ls.map trimEnd = Ls := by
+      intro Ls
+      induction Ls with
+      | nil => intro _; rfl
+      | cons a Ls ih =>
+        intro hh
+        rw [List.map_cons, ih (fun x hx => hh x (by simp [hx]))]
+        rcases hh a (by simp) with hg | rfl
+        · obtain ⟨init, c, rfl, hc⟩ := hg.1
+          rw [trimEnd_snoc init c hc]
+        · simp [trimEnd]
+    exact this _ hlines
+  have hLne : blockLines bs ≠ [] := by rw [hlast]; simp
+  refine ⟨?_, ?_, ?_⟩
+  · unfold stripTrailingWhitespace
+    rw [hL, htrim, hjoin]
+  · unfold collapseBlanks
+    rw [hL, hcol true, hlast, dropTrailingEmpty_last L l hl, ← hlast, hjoin]
+  · unfold expandLiterals
+    have hexp : ∀ l ∈ blockLines bs, expandLine [] l = some [l] := by
+      intro l hl'
+      rcases hlines l hl' with hg | rfl
+      · exact expandLine_plain hg.2
+      · exact expandLine_plain (by simp [headNS])
+    rw [hL', mapM_expand _ hexp]
+    simp only [Option.map_some]
+    have : ((blockLines bs).map fun l => [l]).flatten = blockLines bs := by
+      induction blockLines bs with
+      | nil => rfl
+      | cons a t ih => simp [ih]
+    rw [this, flatten_map_nl _ hLne, hjoin]
+
 end QM.Frag
